@@ -46,7 +46,7 @@ if keep:
     dst = f"/verif/seeded/{keep}"
     os.makedirs(dst, exist_ok=True)
     for f in ("patch.diff", "demo.py", "notes.md"):
-        if os.path.exists(f"{mdir}/{f}"):
+        if os.path.exists(f"{mdir}/{f}") and os.path.abspath(mdir) != os.path.abspath(dst):
             shutil.copy(f"{mdir}/{f}", f"{dst}/{f}")
     meta = {"id": keep, "breaks_property": props[0], "source": "independent sub-agent given only the property text",
             "needs_to_manifest": open(f"{mdir}/notes.md").read()[:1500] if os.path.exists(f"{mdir}/notes.md") else "",
